@@ -169,6 +169,12 @@ def cases(unit, tier):
                             if depth > 1 and (xf == 2 or (sf and ef)) and reg not in SMALL_REGS[:3]:
                                 continue
                             yield [depth, ri, list(reg), style, xf, sf, ef, up]
+                            if depth > 1 and ri and reg in SMALL_REGS[:6] and xf == 0 and sf == 0 and ef == 0:
+                                # an intermediate handler changes the exception's text/attributes and re-raises
+                                yield [depth, ri, list(reg), style, xf, sf, ef, up, 3]
+                            if reg in SMALL_REGS[:2] and xf == 0 and sf == 1:
+                                # the same through a typed action (ActionType with declared success fields)
+                                yield [depth, ri, list(reg), style, xf, sf, ef, up, 4]
                             # the same while another exception is being handled (except / finally)
                             if reg in SMALL_REGS[:2] and xf == 0 and sf == 0:
                                 yield [depth, ri, list(reg), style, xf, sf, ef, up, 1]
@@ -189,6 +195,21 @@ def expected_extractor(exc, reg):
         if klass is OSError:  # eliot's built-in registration for EnvironmentError
             return {"errno": exc.errno}, False
     return {}, False
+
+
+def _text(e):
+    try:
+        return str(e)
+    except Exception:
+        return None
+
+
+from eliot import ActionType, Field
+
+TYPED = [
+    ActionType("t%d" % i, [Field.for_types("sfield", [int], "")], [Field.for_types("efield", [int], "")], "")
+    for i in range(3)
+]
 
 
 class Ambient(Exception):
@@ -261,6 +282,8 @@ def run_case(case):
     def bad(sig, **d):
         viol.append((sig, d))
 
+    texts = {}
+
     def go():
         seen = world.capture()
         for cls, mode in zip(REG_CLASSES, reg):
@@ -273,14 +296,27 @@ def run_case(case):
         def level(i):
             """Run action i (0 = outermost); the innermost raises."""
             start_fields = {"sfield": i} if sf else {}
-            a = start_action(action_type="t%d" % i, **start_fields)
+            if ambient == 4:
+                a = TYPED[i](**start_fields)
+            else:
+                a = start_action(action_type="t%d" % i, **start_fields)
             actions.append(a)
 
             def body():
-                if ef:
+                if ef or ambient == 4:
                     a.add_success_fields(efield=i)
                 if i + 1 < depth:
-                    guarded(i + 1)
+                    if ambient == 3:
+                        try:
+                            guarded(i + 1)
+                        except BaseException as e:
+                            # change what the exception says before the next action reports it
+                            e.args = ("changed at level %d" % i,)
+                            e.errno_like = i
+                            texts[i] = _text(e)
+                            raise
+                    else:
+                        guarded(i + 1)
                 elif RAISES[ri] is not None:
                     e = RAISES[ri]()
                     raised[0] = e
@@ -360,6 +396,12 @@ def run_case(case):
             bad("extra-finish-emitted", emitted=[m.get("action_status") for m in seen[n_before:]])
         return list(seen), raised[0]
 
+    original_text = None
+    if RAISES[ri] is not None:
+        try:
+            original_text = _text(RAISES[ri]())
+        except Exception:
+            original_text = None
     msgs, exc = world.run_isolated(go)
     fails_from = depth - 1 - up if exc is not None else depth  # levels >= fails_from .. wait: inner levels fail
     # actions i in [depth-1-up, depth-1] fail; outer ones succeed
@@ -376,6 +418,7 @@ def run_case(case):
             continue
         st, en = starts[0], ends[0]
         want_start = {"sfield": i} if sf else {}
+
         got_start = {k: v for k, v in st.items() if k not in ("action_type", "action_status", "task_uuid", "task_level", "timestamp")}
         if got_start != want_start:
             bad("start-fields", level=i, got=got_start, want=want_start)
@@ -392,6 +435,15 @@ def run_case(case):
                 want["reason"] = str(exc)
             except Exception:
                 want["reason"] = got_end.get("reason") if isinstance(got_end.get("reason"), str) else "<some text>"
+            if ambient == 3:
+                # the text current when *this* action failed: the innermost saw the original text,
+                # action i saw the text set by the handler at level i (which ran after action i+1 failed)
+                if i == depth - 1:
+                    want["reason"] = original_text
+                elif texts.get(i) is not None:
+                    want["reason"] = texts[i]
+                if want["reason"] is None:
+                    want["reason"] = got_end.get("reason") if isinstance(got_end.get("reason"), str) else "<some text>"
             if got_end != want:
                 bad("failed-end-fields", level=i, got=got_end, want=want)
             if ext_raises:
@@ -400,7 +452,7 @@ def run_case(case):
             if en["action_status"] != "succeeded":
                 bad("success-logged-as-failure", level=i)
                 continue
-            want = {"efield": i} if ef else {}
+            want = {"efield": i} if (ef or ambient == 4) else {}
             if got_end != want:
                 bad("success-end-fields", level=i, got=got_end, want=want)
     tbs = [m for m in msgs if m.get("message_type") == "eliot:traceback"]
